@@ -439,33 +439,33 @@ func (m *mbModel) wordReads() map[token.Pos]int64 {
 	out := map[token.Pos]int64{}
 	info := m.Req.Info()
 	for _, fn := range m.c.P.Funcs("modbus") {
-	 f := fn
-	 if f.Decl == nil || f.Body == nil {
-		continue
-	 }
-	 ast.Inspect(f.Body, func(n ast.Node) bool {
-		call, ok := n.(*ast.CallExpr)
-		if !ok {
-			return true
+		f := fn
+		if f.Decl == nil || f.Body == nil {
+			continue
 		}
-		if _, _, _, isBO := kit.ByteOrderCall(info, call); !isBO || len(call.Args) != 1 {
-			return true
-		}
-		se, ok := ast.Unparen(call.Args[0]).(*ast.SliceExpr)
-		if !ok || !m.isReqData(f, se.X) {
-			return true
-		}
-		lo := int64(0)
-		if se.Low != nil {
-			v, isC := kit.ConstInt(info, se.Low)
-			if !isC {
+		ast.Inspect(f.Body, func(n ast.Node) bool {
+			call, ok := n.(*ast.CallExpr)
+			if !ok {
 				return true
 			}
-			lo = v
-		}
-		out[call.Pos()] = lo
-		return true
-	 })
+			if _, _, _, isBO := kit.ByteOrderCall(info, call); !isBO || len(call.Args) != 1 {
+				return true
+			}
+			se, ok := ast.Unparen(call.Args[0]).(*ast.SliceExpr)
+			if !ok || !m.isReqData(f, se.X) {
+				return true
+			}
+			lo := int64(0)
+			if se.Low != nil {
+				v, isC := kit.ConstInt(info, se.Low)
+				if !isC {
+					return true
+				}
+				lo = v
+			}
+			out[call.Pos()] = lo
+			return true
+		})
 	}
 	return out
 }
